@@ -93,3 +93,20 @@ func VerifCachedNode(v interface{}) *VerifNode {
 func VerifThresholds(m *Mast) (uint64, uint64) {
 	return m.growAfterSize, m.shrinkBelowSize
 }
+
+// VerifPathEntry is one element of a cursor's path: a snapshot of the node
+// object and the link index the cursor holds for it.
+type VerifPathEntry struct {
+	Node  VerifNode
+	Index int
+}
+
+// VerifCursor returns the cursor's own tree (the clone made by Cursor()) and
+// its path from the top node down.
+func VerifCursor(c *Cursor) (*Mast, []VerifPathEntry) {
+	var out []VerifPathEntry
+	for _, pe := range c.path {
+		out = append(out, VerifPathEntry{Node: verifNode(pe.node), Index: pe.linkIndex})
+	}
+	return c.m, out
+}
